@@ -10,6 +10,8 @@ import OrsoVerif.Drv.C09
 import OrsoVerif.Drv.C10
 import OrsoVerif.Drv.C11
 import OrsoVerif.Drv.C12
+import OrsoVerif.Drv.C13
+import OrsoVerif.Drv.C14
 import OrsoVerif.Drv.C15
 import OrsoVerif.Drv.C17
 import OrsoVerif.Drv.C18
@@ -31,6 +33,8 @@ def dispatch (prop op : String) (args : List PyVal) : Option (List PyVal) :=
   | "C10" => Drv.C10.handle op args
   | "C11" => Drv.C11.handle op args
   | "C12" => Drv.C12.handle op args
+  | "C13" => Drv.C13.handle op args
+  | "C14" => Drv.C14.handle op args
   | "C15" => Drv.C15.handle op args
   | "C17" => Drv.C17.handle op args
   | "C18" => Drv.C18.handle op args
